@@ -38,6 +38,11 @@ type Field struct {
 	// Context is for user provided data and is only used by the Resolvers,
 	// not this package.
 	Context interface{}
+
+	// sorted is Args in the order the arguments are declared with a nil for
+	// each argument not provided. It is set when the field is first
+	// resolved. Args itself is left as written in the request.
+	sorted []*ArgValue
 }
 
 // String representation of the instance.
@@ -134,8 +139,18 @@ func (f *Field) sortArgs() (errors []error) {
 			for _, a := range fd.args.list {
 				args = append(args, f.getArg(a.N))
 			}
-			f.Args = args
+			// Keep Args as written, resolving must not change the request.
+			f.sorted = args
 		}
 	}
 	return
+}
+
+// sortedArgs returns the arguments in declared order once the field has been
+// resolved at least once otherwise the arguments as written.
+func (f *Field) sortedArgs() []*ArgValue {
+	if f.sorted != nil {
+		return f.sorted
+	}
+	return f.Args
 }
